@@ -15,6 +15,7 @@ From PNA Require Import Base Crc32 Name Codec Chunk Archive Entry Flatten Cbc Ct
   BaseFacts ChunkFacts ArchiveFacts EntryFacts FlattenFacts CbcFacts CtrFacts StreamFacts PipelineFacts.
 From PNA Require Import Wf WfFacts WfWriterFacts WfAgreeFacts WfSplitFacts.
 From PNA Require Split SplitFacts.
+From PNA Require Import Aes Camellia AesFacts CamelliaFacts PipelineRealFacts.
 Require Import ZArith ZifyN ZifyNat ZifyBool Lia.
 Open Scope N_scope.
 
@@ -411,6 +412,28 @@ Lemma recut_empty t x y : recut t x y -> recut t (mk t [] :: x) y.
 Proof. unfold recut. intro H. rewrite fuse_mk. exact H. Qed.
 Lemma recut_app t a a' b b' : recut t b b' -> a = a' -> recut t (a ++ b) (a' ++ b').
 Proof. intros H <-. induction a as [|c a IH]; [exact H|]. cbn [app]. apply recut_keep. exact IH. Qed.
+
+(* fuse is a canonical form: every chunk list is a re-cut of its fused form, which is a fixed point *)
+Lemma fuse_cons_t t c r : ty_is c t = true -> fuse t (c :: r) = pre t (cdata c) (fuse t r).
+Proof. intro H. cbn [fuse]. rewrite H. reflexivity. Qed.
+Lemma fuse_pre t d l : fuse t (pre t d l) = pre t d (fuse t l).
+Proof.
+  destruct d as [|d0 d]; [reflexivity|]. destruct l as [|c' r'].
+  - change (pre t (d0 :: d) []) with [mk t (d0 :: d)]. apply fuse_mk.
+  - destruct (ty_is c' t) eqn:Ec.
+    + replace (pre t (d0 :: d) (c' :: r')) with (mk t ((d0 :: d) ++ cdata c') :: r') by (cbn [pre]; rewrite Ec; reflexivity).
+      rewrite fuse_mk, (fuse_cons_t t c' r' Ec), pre_pre. reflexivity.
+    + replace (pre t (d0 :: d) (c' :: r')) with (mk t (d0 :: d) :: c' :: r') by (cbn [pre]; rewrite Ec; reflexivity).
+      rewrite fuse_mk. reflexivity.
+Qed.
+Lemma fuse_idem t x : fuse t (fuse t x) = fuse t x.
+Proof.
+  induction x as [|c r IH]; [reflexivity|]. cbn [fuse]. destruct (ty_is c t) eqn:Ec.
+  - rewrite fuse_pre, IH. reflexivity.
+  - rewrite (fuse_other t c _ Ec), IH. reflexivity.
+Qed.
+Lemma recut_fuse t x : recut t x (fuse t x).
+Proof. unfold recut. symmetry. apply fuse_idem. Qed.
 
 (* ---- a chunk loop with an accumulator does not see where the runs of t-chunks are cut --------------- *)
 Lemma res_rel_refl {A} (R : A -> A -> Prop) : (forall a, R a a) -> forall r, res_rel R r r.
@@ -912,3 +935,292 @@ Proof.
     destruct (snd (parse_all xs)); cbn [res_rel]; auto.
 Qed.
 End ArchiveLevel.
+
+(* ================================================================================================= *)
+(* 4. pna split: the splitter cuts data chunks only                                                    *)
+(* ================================================================================================= *)
+(* WfSplitFacts.crefines (some FDAT/SDAT chunks cut in pieces) is a re-cut, provided the only stream-typed chunks
+   are the entry's own data chunks (a stream-typed chunk foreign to its entry — SDAT inside FHED..FEND — is cut by
+   the splitter too: the known finding SplitFacts.foreign_stream_chunk_recut_refuted) *)
+Theorem crefines_recut x y : crefines x y ->
+  forall t, (forall c, In c x -> stream_type (cty c) = true -> cty c = t) -> recut t x y.
+Proof.
+  induction 1 as [|c x y _ IH|t0 a b x y T _ IH]; intros t Hf.
+  - apply recut_nil.
+  - apply recut_keep. apply IH. intros c' Hin. apply Hf. right. exact Hin.
+  - assert (Ht : t0 = t) by (apply (Hf (mk t0 (a ++ b))); [left; reflexivity|exact T]). subst t0.
+    apply recut_cut. apply IH. intros c' [<-|Hin]; [reflexivity|]. apply Hf. right. exact Hin.
+Qed.
+
+Theorem write_split_recut max es parts t :
+  Split.write_split max es = Ok parts ->
+  (forall c, In c (map to_c (concat es)) -> stream_type (cty c) = true -> cty c = t) ->
+  exists bds lastb, parts = SplitFacts.assemble bds lastb /\
+                    recut t (map to_c (concat es)) (map to_c (concat bds ++ lastb)).
+Proof.
+  intros W Hf. destruct (write_split_refines _ _ _ W) as (bds & lastb & -> & _ & CR).
+  exists bds, lastb. split; [reflexivity|]. exact (crefines_recut _ _ CR t Hf).
+Qed.
+
+Lemma entry_same_refl x : entry_same x x.
+Proof. destruct x; cbn; repeat split. Qed.
+Lemma entry_same_trans x y z : entry_same x y -> entry_same y z -> entry_same x z.
+Proof.
+  destruct x, y, z; cbn; try contradiction.
+  - intros (A1 & A2 & A3 & A4 & A5 & A6) (B1 & B2 & B3 & B4 & B5 & B6). repeat split; congruence.
+  - intros (A1 & A2 & A3 & A4) (B1 & B2 & B3 & B4). repeat split; congruence.
+Qed.
+Lemma entry_same_normalize e : entry_same e (normalize_entry e).
+Proof.
+  destruct e as [n|s]; cbn [normalize_entry]; [|apply entry_same_refl].
+  cbn [entry_same normalize n_hdr n_phsf n_extra n_data n_meta n_xattrs]. repeat split.
+  symmetry. exact (concat_filter_ne (n_data n)).
+Qed.
+Lemma Forall2_entry_same_normalize : forall ents xs, Forall2 entry_same (map normalize_entry ents) xs -> Forall2 entry_same ents xs.
+Proof.
+  induction ents as [|e ents IH]; intros xs H; inversion H; subst; constructor.
+  - eapply entry_same_trans; [apply entry_same_normalize|eassumption].
+  - apply IH. assumption.
+Qed.
+
+Section SplitDecode.
+Variables E D : encryption -> bytes -> bytes -> bytes.
+Variable decompress : compression -> bytes -> res bytes.
+Variable verify : bytes -> bytes -> res bytes.
+
+(* 4. what `pna split` does to the entries of an archive: the parts written by write_split, read back by the
+   part-chaining reader (stream or slice), give entries that agree with the originals and decode to the same contents *)
+Theorem split_then_decode max ents parts : Forall writable ents ->
+  Split.write_split max (map (fun e => map of_c (ser_entry e)) ents) = Ok parts ->
+  exists xs' raws,
+    read_parts read_chunk_stream (map ser_pfile parts) = Ok (raws, FinOk) /\
+    read_parts read_chunk_slice (map ser_pfile parts) = Ok (raws, FinOk) /\
+    parse_all raws = (xs', FinOk) /\
+    entries_agree E D decompress verify ents xs'.
+Proof.
+  intros W H. destruct (split_read_back _ _ _ W H) as (xs' & raws & S & R & P).
+  exists xs', raws. split; [exact R|]. split; [rewrite stream_slice_agree_parts; exact R|]. split; [exact P|].
+  apply entries_agree_of_same. apply Forall2_entry_same_normalize. exact S.
+Qed.
+End SplitDecode.
+
+(* ================================================================================================= *)
+(* 5. with the writer of C01: an archive the library wrote, re-cut in any way, still decodes to what   *)
+(*    was written (this is where the cipher and compressor laws come in)                               *)
+(* ================================================================================================= *)
+Lemma repeat_pos k : Forall (fun n => 0 < n) (repeat 1 k).
+Proof. induction k; cbn; constructor; [lia|assumption]. Qed.
+Lemma len_repeat {A} (x : A) k : len (repeat x k) = N.of_nat k.
+Proof. unfold len. rewrite repeat_length. reflexivity. Qed.
+
+Section Written.
+Variables E D : encryption -> bytes -> bytes -> bytes.
+Variable compress : compression -> N -> list bytes -> list bytes.
+Variable decompress : compression -> bytes -> res bytes.
+Variable verify : bytes -> bytes -> res bytes.
+Hypothesis D_len : forall a k c, len16 c -> len16 (D a k c).
+Hypothesis DE : forall a k b, len16 b -> D a k (E a k b) = b.
+Hypothesis E_len : forall a k b, len16 b -> len16 (E a k b).
+Hypothesis compress_law : forall c lvl ws, decompress c (concat (compress c lvl ws)) = Ok (concat ws).
+Hypothesis compress_det : forall c lvl (ws ws' : list bytes), concat ws = concat ws' ->
+  concat (compress c lvl ws) = concat (compress c lvl ws').
+
+(* a built entry decodes to its content with EVERY draining buffer sequence (the roundtrip theorem asks for
+   more reads than the plain stream has bytes; the data is never shorter than that, but this needs no counting:
+   both are decode_spec of the same bytes) *)
+Lemma built_decodes pw j rb : wf_job E compress verify pw j -> drains (n_data (build_job E compress j)) rb ->
+  decode_normal E D decompress verify (build_job E compress j) pw rb = Ok (sp_content (j_spec j)).
+Proof.
+  intros (Hs & Hc & Hw & Hf) Hd.
+  set (k := S (N.to_nat (len (plain compress (eff_cfg (j_cfg j) (sp_kind (j_spec j))) (eff_wcuts (sp_kind (j_spec j)) (j_wcuts j)))
+                         + len (concat (n_data (build_job E compress j)))))).
+  assert (D0 : drains (n_data (build_job E compress j)) (repeat 1 k)).
+  { split; [apply repeat_pos|]. rewrite len_repeat. unfold k. lia. }
+  rewrite (normal_same_decode E D decompress verify _ (build_job E compress j) pw rb (repeat 1 k)); try assumption.
+  - unfold build_job. apply (entry_roundtrip E D compress decompress verify D_len DE E_len compress_law); try assumption.
+    + apply repeat_pos.
+    + unfold covers. rewrite len_repeat. unfold k. lia.
+  - unfold normal_same. repeat split.
+Qed.
+
+Theorem recut_of_written pw jobs ys :
+  Forall (wf_job E compress verify pw) jobs ->
+  Forall2 recut_entry (map ser_normal (map (build_job E compress) jobs)) ys -> Forall wf_entry ys ->
+  exists es,
+    read_archive (write_raw_archive 0 ys) = Ok es /\
+    entries read_chunk_slice (write_raw_archive 0 ys) = Ok (es, FinOk) /\
+    Forall2 (fun j e => exists n, e = RNormal n /\ normal_same (build_job E compress j) n /\
+               forall rb, drains (n_data n) rb ->
+                 decode_normal E D decompress verify n pw rb = Ok (sp_content (j_spec j))) jobs es.
+Proof.
+  intros Hj Hr W2.
+  assert (W1 : Forall wf_entry (map ser_normal (map (build_job E compress) jobs))).
+  { apply Forall_forall. intros cs Hcs. apply in_map_iff in Hcs. destruct Hcs as (e & <- & He).
+    apply in_map_iff in He. destruct He as (j & <- & Hin). rewrite Forall_forall in Hj.
+    destruct (Hj j Hin) as (Hs & Hc & Hw & Hf).
+    apply (ser_normal_wf_entry compress decompress compress_law compress_det); [|exact Hf].
+    apply (build_wf_normal E compress verify _ _ pw); assumption. }
+  destruct (recut_archive_indep E D decompress verify 0 _ ys ltac:(lia) Hr W1 W2) as (es1 & es2 & f & R1 & R2 & _ & S2 & Ag & _).
+  pose proof (archive_roundtrip E D compress decompress verify D_len DE E_len compress_law compress_det pw jobs Hj) as RT.
+  unfold write_archive, read_archive in RT. rewrite R1 in RT. cbn [bind] in RT.
+  destruct f; try discriminate. injection RT as ->.
+  exists es2. split; [unfold read_archive; rewrite R2; reflexivity|]. split; [exact S2|].
+  clear R1 R2 S2 Hr W1 W2. revert es2 Ag. induction jobs as [|j jobs IH]; intros es2 Ag; inversion Ag; subst; constructor.
+  - match goal with H : entry_same _ ?y /\ _ |- _ => destruct H as (Hs & Hd); destruct y as [n|s]; cbn [entry_same] in Hs; [|contradiction] end.
+    exists n. split; [reflexivity|]. split; [exact Hs|]. intros rb Hrb.
+    inversion Hj as [|? ? Hj1 _]; subst.
+    assert (D1 : drains (n_data (build_job E compress j)) rb).
+    { destruct Hs as (_ & _ & _ & Hc & _). eapply drains_concat; [symmetry; exact Hc|exact Hrb]. }
+    specialize (Hd pw rb rb D1 Hrb). cbn [decode_entry] in Hd.
+    rewrite (built_decodes pw j rb Hj1 D1) in Hd. cbn [bind] in Hd.
+    destruct (decode_normal E D decompress verify n pw rb); cbn [bind] in Hd; congruence.
+  - apply IH; [inversion Hj; assumption|assumption].
+Qed.
+End Written.
+
+(* ================================================================================================= *)
+(* 6. the instances with the AES-256 / Camellia-256 models the pipeline area is run with               *)
+(* ================================================================================================= *)
+Section Real.
+Variable compress : compression -> N -> list bytes -> list bytes.
+Variable decompress : compression -> bytes -> res bytes.
+Variable verify : bytes -> bytes -> res bytes.
+
+Theorem decode_stream_cut_indep_real comp enc mode phsf pw data1 data2 rbufs1 rbufs2 :
+  concat data1 = concat data2 -> drains data1 rbufs1 -> drains data2 rbufs2 ->
+  decode_stream real_E_of real_D_of decompress verify comp enc mode phsf pw data1 rbufs1 =
+  decode_stream real_E_of real_D_of decompress verify comp enc mode phsf pw data2 rbufs2.
+Proof. apply decode_stream_cut_indep. Qed.
+
+Theorem recut_archive_indep_real num xs ys : num < 2 ^ 32 ->
+  Forall2 recut_entry xs ys -> Forall wf_entry xs -> Forall wf_entry ys ->
+  let a1 := write_raw_archive num xs in let a2 := write_raw_archive num ys in
+  exists es1 es2 f,
+    entries read_chunk_stream a1 = Ok (es1, f) /\ entries read_chunk_stream a2 = Ok (es2, f) /\
+    entries read_chunk_slice a1 = Ok (es1, f) /\ entries read_chunk_slice a2 = Ok (es2, f) /\
+    entries_agree real_E_of real_D_of decompress verify es1 es2 /\
+    res_rel (entries_agree real_E_of real_D_of decompress verify) (read_archive a1) (read_archive a2).
+Proof. apply recut_archive_indep. Qed.
+
+Hypothesis compress_law : forall c lvl ws, decompress c (concat (compress c lvl ws)) = Ok (concat ws).
+Hypothesis compress_det : forall c lvl (ws ws' : list bytes), concat ws = concat ws' ->
+  concat (compress c lvl ws) = concat (compress c lvl ws').
+
+Theorem recut_of_written_real pw jobs ys :
+  Forall (wf_job real_E_of compress verify pw) jobs ->
+  Forall2 recut_entry (map ser_normal (map (build_job real_E_of compress) jobs)) ys -> Forall wf_entry ys ->
+  exists es,
+    read_archive (write_raw_archive 0 ys) = Ok es /\
+    entries read_chunk_slice (write_raw_archive 0 ys) = Ok (es, FinOk) /\
+    Forall2 (fun j e => exists n, e = RNormal n /\ normal_same (build_job real_E_of compress j) n /\
+               forall rb, drains (n_data n) rb ->
+                 decode_normal real_E_of real_D_of decompress verify n pw rb = Ok (sp_content (j_spec j))) jobs es.
+Proof. apply (recut_of_written real_E_of real_D_of compress decompress verify real_D_len real_DE real_E_len compress_law compress_det). Qed.
+End Real.
+
+(* ================================================================================================= *)
+(* 7. the premises are satisfiable: a 33-byte file, AES-256-CBC, store; its 64 data bytes (IV + 48)      *)
+(*    re-cut into chunks of 1, 0, 7, 16, 20, 20 bytes (inside the IV, empty, inside cipher blocks)       *)
+(* ================================================================================================= *)
+Lemma repeat_pos' n k : 0 < n -> Forall (fun m => 0 < m) (repeat n k).
+Proof. intro H. induction k; cbn; constructor; assumption. Qed.
+
+(* cut a byte string into pieces of the given sizes (the rest, if any, is the last piece) *)
+Fixpoint cut_sizes (sizes : list nat) (b : bytes) : list bytes :=
+  match sizes with
+  | [] => match b with [] => [] | _ => [b] end
+  | n :: r => firstn n b :: cut_sizes r (skipn n b)
+  end.
+(* re-cut every run of t-chunks with the same sizes *)
+Definition recut_with (t : bytes) (sizes : list nat) (cs : list chunk) : list chunk :=
+  concat (map (fun c => if ty_is c t then map (mk t) (cut_sizes sizes (cdata c)) else [c]) (fuse t cs)).
+
+(* a decidable form of ArchiveFacts.wf_entry *)
+Definition wf_chunkb (c : chunk) : bool := Nat.eqb (length (cty c)) 4 && N.ltb (len (cdata c)) (2 ^ 32).
+Definition wf_entryb (cs : list chunk) : bool :=
+  match rev cs with
+  | [] => false
+  | l :: b => is_end l && forallb wf_chunkb cs && forallb (fun c => negb (is_term c)) b
+  end.
+Lemma wf_entryb_sound cs : wf_entryb cs = true -> wf_entry cs.
+Proof.
+  unfold wf_entryb. destruct (rev cs) as [|l b] eqn:Er; [discriminate|]. intro H.
+  apply andb_prop in H. destruct H as [H H3]. apply andb_prop in H. destruct H as [H1 H2].
+  assert (Ecs : cs = rev b ++ [l]) by (rewrite <- (rev_involutive cs), Er; reflexivity).
+  exists (rev b), l. split; [exact Ecs|]. split; [exact H1|]. split.
+  - apply Forall_forall. intros c Hc. rewrite forallb_forall in H2. specialize (H2 c Hc).
+    unfold wf_chunkb in H2. apply andb_prop in H2. destruct H2 as [A B]. split; [apply Nat.eqb_eq; exact A|apply N.ltb_lt; exact B].
+  - apply Forall_forall. intros c Hc. rewrite forallb_forall in H3. apply in_rev in Hc. specialize (H3 c Hc).
+    apply negb_true_iff. exact H3.
+Qed.
+
+Definition rx_pw : bytes := lit "pw".
+Definition rx_key : bytes := firstn 32 (rx_pw ++ repeat x00 32).
+Definition rx_iv : bytes := map n2b [16; 17; 18; 19; 20; 21; 22; 23; 24; 25; 26; 27; 28; 29; 30; 31].
+Definition rx_content : bytes :=
+  map n2b [1; 2; 3; 4; 5; 6; 7; 8; 9; 10; 11; 12; 13; 14; 15; 16; 17; 18; 19; 20; 21; 22; 23; 24; 25; 26; 27; 28; 29; 30; 31; 32; 33].
+Definition rx_cfg : config := {| g_comp := CNo; g_level := 0; g_enc := EAes; g_mode := MCbc |}.
+Definition rx_ctx : cctx := {| c_key := rx_key; c_iv := rx_iv; c_phsf := hex rx_pw |}.
+Definition rx_spec : spec :=
+  {| sp_kind := KFile; sp_name := lit "a.txt"; sp_content := rx_content; sp_ctime := None; sp_mtime := Some 1700000000;
+     sp_atime := None; sp_perm := None; sp_xattrs := []; sp_extra := [mk (T "zzXy") [x01]] |}.
+(* the entry as EntryBuilder makes it (written as 10 + 23 bytes), its chunks, and the re-cut chunks *)
+Definition rx_entry : normal_entry := build_normal real_E_of id_compress rx_cfg rx_ctx rx_spec [firstn 10 rx_content; skipn 10 rx_content].
+Definition rx_chunks : list chunk := ser_normal rx_entry.
+Definition rx_recut : list chunk := recut_with FDAT [1; 0; 7; 16; 20; 20]%nat rx_chunks.
+Definition rx_decode (cs : list chunk) (rbufs : list N) : res bytes :=
+  do e <- parse_normal cs; decode_normal real_E_of real_D_of id_decompress toy_verify e rx_pw rbufs.
+
+Example rx_shape :
+  map (fun c => length (cdata c)) (filter (fun c => ty_is c FDAT) rx_chunks) = [16; 16; 16; 16]%nat /\
+  map (fun c => length (cdata c)) (filter (fun c => ty_is c FDAT) rx_recut) = [1; 0; 7; 16; 20; 20]%nat /\
+  length rx_content = 33%nat /\ wf_entryb rx_chunks = true /\ wf_entryb rx_recut = true.
+Proof. vm_compute. repeat split. Qed.
+Example rx_is_recut : recut FDAT rx_chunks rx_recut.
+Proof. unfold recut. vm_compute. reflexivity. Qed.
+Lemma recut_entry_intro x y : x <> [] -> y <> [] -> hd (mk [] []) x = hd (mk [] []) y ->
+  recut (data_type (hd (mk [] []) x)) (tl x) (tl y) -> recut_entry x y.
+Proof. destruct x, y; try congruence. cbn. auto. Qed.
+Example rx_is_recut_entry : recut_entry rx_chunks rx_recut.
+Proof.
+  apply recut_entry_intro.
+  - vm_compute. discriminate.
+  - vm_compute. discriminate.
+  - vm_compute. reflexivity.
+  - unfold recut. vm_compute. reflexivity.
+Qed.
+Example rx_premises : exists e1 e2,
+  parse_normal rx_chunks = Ok e1 /\ parse_normal rx_recut = Ok e2 /\ recut FDAT rx_chunks rx_recut /\
+  drains (n_data e1) (repeat 7 70) /\ drains (n_data e2) (repeat 16 70) /\ n_data e1 <> n_data e2.
+Proof.
+  destruct (parse_normal rx_chunks) as [e1| |] eqn:P1; [|vm_compute in P1; discriminate|vm_compute in P1; discriminate].
+  destruct (parse_normal rx_recut) as [e2| |] eqn:P2; [|vm_compute in P2; discriminate|vm_compute in P2; discriminate].
+  exists e1, e2. split; [reflexivity|]. split; [reflexivity|]. split; [exact rx_is_recut|].
+  vm_compute in P1. vm_compute in P2. injection P1 as <-. injection P2 as <-.
+  split; [split; [apply (repeat_pos' 7 70); lia|vm_compute; reflexivity]|].
+  split; [split; [apply (repeat_pos' 16 70); lia|vm_compute; reflexivity]|]. vm_compute. discriminate.
+Qed.
+Example rx_decodes :
+  rx_decode rx_chunks (repeat 7 70) = Ok rx_content /\ rx_decode rx_recut (repeat 16 70) = Ok rx_content.
+Proof. split; vm_compute; reflexivity. Qed.
+Example rx_truncated_same_error :
+  let data := concat (n_data rx_entry) in
+  decode_stream real_E_of real_D_of id_decompress toy_verify CNo EAes MCbc (Some (hex rx_pw)) rx_pw [firstn 63 data] (repeat 4096 70) = Err UnexpectedEof /\
+  decode_stream real_E_of real_D_of id_decompress toy_verify CNo EAes MCbc (Some (hex rx_pw)) rx_pw (cut_sizes [1; 0; 7; 16; 20]%nat (firstn 63 data)) (repeat 5 70) = Err UnexpectedEof.
+Proof. split; vm_compute; reflexivity. Qed.
+Example rx_archive_premises :
+  Forall2 recut_entry [rx_chunks] [rx_recut] /\ Forall wf_entry [rx_chunks] /\ Forall wf_entry [rx_recut] /\
+  write_raw_archive 0 [rx_chunks] <> write_raw_archive 0 [rx_recut].
+Proof.
+  split; [constructor; [exact rx_is_recut_entry|constructor]|].
+  split; [constructor; [apply wf_entryb_sound; vm_compute; reflexivity|constructor]|].
+  split; [constructor; [apply wf_entryb_sound; vm_compute; reflexivity|constructor]|].
+  vm_compute. discriminate.
+Qed.
+
+(* split_then_decode: its premises are met by the three example entries of WfWriterFacts split at 120 bytes *)
+Example rx_split_premises : exists parts,
+  Forall writable [RNormal ex_plain; RNormal ex_enc; RSolid ex_solid] /\
+  Split.write_split 120 (map (fun e => map of_c (ser_entry e)) [RNormal ex_plain; RNormal ex_enc; RSolid ex_solid]) = Ok parts /\
+  length parts = 12%nat.
+Proof. destruct split_wf_ex as (parts & H1 & H2 & _). exists parts. split; [exact ex_writable|]. split; assumption. Qed.
